@@ -29,9 +29,24 @@ BOUNDS = {
 CHUNK = 25
 
 
+BIND_CTL = frozenset({
+    "assign", "aug", "walrus", "unpack-tuple", "import-as", "del", "return", "raise", "yield-recv", "break", "continue",
+    "if-else", "for", "for-else", "for-tuple", "while-walrus", "try-except", "try-finally", "with", "with-tuple", "if-walrus",
+})
+
+
+def program_sets(tier):
+    """The general menu at the common size bound, and a binding/control menu one size larger
+    (else-suites, handlers and finally blocks only exist from three nodes on)."""
+    return [("gen", dict()), ("ctl", dict(size=C.SIZE[tier] + 1, only=BIND_CTL, key=("c02ctl", tier)))]
+
+
 def units(tier):
-    n = C.count_programs(tier)
-    return [("progs", lo, min(n, lo + CHUNK)) for lo in range(0, n, CHUNK)]
+    out = []
+    for name, kw in program_sets(tier):
+        n = C.count_programs(tier, **kw)
+        out += [(name, lo, min(n, lo + CHUNK)) for lo in range(0, n, CHUNK)]
+    return out
 
 
 def focus_configs(info, tier):
@@ -55,17 +70,13 @@ def focus_configs(info, tier):
 
 
 def expected_stream(trace, v, ctx):
-    latest = {}
     out = []
-    for kind, name, value, form, sid in trace:
-        if kind != "bind":
-            continue
-        latest[name] = value
-        if name == v:
+    for kind, name, value, form, sid, snap in trace:
+        if kind == "bind" and name == v:
             ev = {v: value}
             for w in ctx:
-                if w in latest:
-                    ev[w] = latest[w]
+                if w in snap:
+                    ev[w] = snap[w]
             out.append((ev, form, sid))
     return out
 
@@ -142,8 +153,9 @@ def _still(prog, v, ctx, x, driver):
 
 def work(unit, tier):
     part = new_partial()
-    _, lo, hi = unit
-    for prog in C.programs_slice(tier, lo, hi):
+    name, lo, hi = unit
+    kw = dict(program_sets(tier))[name]
+    for prog in C.programs_slice(tier, lo, hi, **kw):
         check_program(prog, tier, part)
     return part
 
